@@ -31,7 +31,7 @@ RULE = (
     "base_spfs, base_uspfs and drawn transformation parameters.  Relations checked per case: R1 children reversed at drawn nodes of both trees "
     "(same cost, same set); R2 bijective renaming of object nodes, species and families (same cost, same set modulo the bijection); R3 outgroup "
     "species without objects above the root (same cost; same set if floss>0, else old set included and every extra solution maps a node to the "
-    "new root); R4 solving again on the same input object and on a re-parsed input (identical); R5 all costs x k, k in {2,3,5} (cost x k, same "
+    "new root); R4 solving again on the same input object, on a re-parsed input, and on the same object after its costs were changed in place and changed back (identical to fresh inputs with those costs); R5 all costs x k, k in {2,3,5} (cost x k, same "
     "set); R6 one unit cost raised by 1..3 inside the region (cost not lower).  Sets are compared (policy ALL) up to 6 object leaves, costs "
     "only (policy ANY) above.  Extra part: a batch of cases is solved in 3 fresh interpreters with PYTHONHASHSEED 0, 1 and VERIF_SEED and the "
     "JSON results must be identical.  Non-trivial: >=3 object leaves and the source optimum has positive cost; distinct by SHA-1 of the case."
@@ -134,6 +134,14 @@ def solve(case, algo, want_set):
     return _summary(outs, algo, want_set), inp
 
 
+def _set_costs_inplace(inp, costs):
+    from superrec2.model.reconciliation import EdgeEvent, NodeEvent
+
+    for key, value in costs.items():
+        event = getattr(NodeEvent, key) if hasattr(NodeEvent, key) else getattr(EdgeEvent, key)
+        inp.costs[event] = pkg.INFINITY if (value == INF and pkg.use_infinity_object({"costs": costs})) else value
+
+
 def _summary(outs, algo, want_set):
     mode = MODE[algo][0]
     costs = {pkg.pkg_cost(o) for o in outs}
@@ -194,6 +202,15 @@ def check(case):
     outs_again = pkg.run_algo(algo, inp0, "ALL" if want_set else "ANY")
     same("R4.same-object", _summary(outs_again, algo, want_set), c0, s0)
     same("R4.reparsed", solve(src, algo, want_set)[0], c0, s0)
+    # R4 (history): the same input object with its unit costs changed in place (as callers and the package's
+    # own tests do), solved, then changed back: each result must equal the one of a freshly parsed input
+    for tag, other_costs in (("raised", t_raise(case, labelled)[0]["costs"]), ("no-transfer", dict(src["costs"], HORIZONTAL_TRANSFER=INF))):
+        _set_costs_inplace(inp0, other_costs)
+        got = _summary(pkg.run_algo(algo, inp0, "ALL" if want_set else "ANY"), algo, want_set)
+        fresh = solve(dict(src, costs=other_costs), algo, want_set)[0]
+        same(f"R4.costs-changed-in-place.{tag}", got, fresh[0], fresh[1])
+    _set_costs_inplace(inp0, src["costs"])
+    same("R4.costs-restored-in-place", _summary(pkg.run_algo(algo, inp0, "ALL" if want_set else "ANY"), algo, want_set), c0, s0)
     # R1
     same("R1.children-reordered", solve(t_flip(case), algo, want_set)[0], c0, s0)
     # R2
